@@ -83,11 +83,9 @@ theorem cleaner_step_explicit {fs fs' : FS} {t t' : Th} {s : String} (hG : G fs)
   case h_8 hpc =>
     -- setlk ol
     split at h
-    · split at h
-      all_goals (
-        simp only [Option.some.injEq, Prod.mk.injEq] at h
-        obtain ⟨rfl, rfl, _⟩ := h
-        cleaner_fin)
+    · simp only [Option.some.injEq, Prod.mk.injEq] at h
+      obtain ⟨rfl, rfl, _⟩ := h
+      cleaner_fin
     · rename_i hlk
       have hnot := not_lockedByOther_ol hlk
       have hod := l5 (Or.inr ⟨by omega, by omega⟩)
@@ -151,7 +149,7 @@ theorem cleaner_step_explicit {fs fs' : FS} {t t' : Th} {s : String} (hG : G fs)
     have hcl : fs.ol.closeBy t.pid = { fs.ol with lock := none } := by simp [File.closeBy, hl]
     rw [hcl]
     cleaner_fin
-  case h_27 =>
+  case h_28 =>
     rw [if_neg hA, if_neg hB] at h
     cases h
   all_goals (
